@@ -180,7 +180,7 @@ def run_subdivide(nodes, flat, as_tuples=False, judge_curve=True, monitor=True, 
     # "closer than the flatness" is strict.  Where flat (and hence flat^2, and on the lattice the
     # distances too) is exactly representable, an exact tie must have been split; elsewhere the
     # library can only compare rounded numbers and gets a relative slack far below any effect
-    exact_flat = float(flat) * 1024 == int(float(flat) * 1024) and abs(flat) < 1 << 20
+    exact_flat = abs(flat) < 1 << 20 and float(flat) * 1024 == int(float(flat) * 1024)
     tol2 = F(flat) * F(flat) * (1 if exact_flat and judge_curve else 1 + F(1, 10 ** 9))
     for k, (p_0, p_1, p_2, p_3) in enumerate(fin_pieces):
         for inner in (p_1, p_2):
@@ -455,6 +455,9 @@ def run(ctx):
     jobs.append(("raw", single, flats))
     for nodes in long_node_lists():
         jobs.append(("raw", [nodes], [0.3, 1.0]))
+    # flatness values whose square is not a finite float: everything is flat, nothing to do
+    for nodes in long_node_lists()[:2] + [one_piece(((0, 0), (0, 2), (2, 2), (2, 0)))]:
+        jobs.append(("raw", [nodes], [2.0 ** 511, 2.0 ** 512, 1e200, 1e300, 1.7976931348623157e308]))
     for nodes in crowd_node_lists(ctx.thorough):
         jobs.append(("crowd", [nodes], [0.3, 1.0]))
     for chunk in core.split(ones[::ctx.pick(5, 1)], 16):
